@@ -173,9 +173,14 @@ func VF_C09_ptr_attrs() {
 }
 
 func vfArgs(name string, max int) []any {
-	n := vfChoice(name+".len", max+1)
-	var out []any
-	for i := 0; i < n; i++ {
+	// absent (nil), present but empty (`arguments: []` decodes to a non-nil
+	// empty slice), or 1..max elements
+	n := vfChoice(name+".len", max+2)
+	if n == 0 {
+		return nil
+	}
+	out := []any{}
+	for i := 0; i < n-1; i++ {
 		if i == 0 && vfIsPolymorphic {
 			out = append(out, vfAny(name, 0))
 		} else {
